@@ -13,7 +13,9 @@ import ast as pyast
 import itertools
 import z3
 from pyvc.values import *  # noqa
-from pyvc.contracts import FunctionContract, FunctionUnit
+from pyvc.contracts import FunctionContract, FunctionUnit, Unit
+from pyvc.engine import Obligation
+from pyvc import extract
 
 REL = "dagrt/codegen/python.py"
 B = z3.BoolVal
@@ -321,9 +323,13 @@ class ExprEmit(FunctionContract):
         npos, nkw = c.get("args", 0), c.get("kwargs", 0)
         ctx.env["self"] = VObj(TObj("Mapper", {}), {
             "_name_manager": VNameMgr(), "_function_registry": VRegistry2(self, bool(c.get("registered", False))),
+            "_numpy": VPy("NUMPY"),
             "rec": VFunc("rec", self.m_rec), "map_generic_call": VFunc("map_generic_call", self.m_delegate),
             "parenthesize_if_needed": VFunc("parenthesize_if_needed", self.m_paren)})
         ctx.env["expr"] = VExprNode(c.get("name", "x"))
+        if "elements" in c:
+            # a one-dimensional numpy array constant of that many entries (iterated entry by entry; .shape is (n,))
+            ctx.env["expr"] = VArrayConst([VPy("e%d" % i) for i in range(c["elements"])])
         ctx.env["enclosing_prec"] = VPy("enclosing_prec")
         ctx.env["symbol"] = VObj(TObj("sym", {}), {"name": VPy("symbolname")})
         ctx.env["args"] = VTuple([VPy("a%d" % i) for i in range(npos)])
@@ -346,6 +352,8 @@ class ExprEmit(FunctionContract):
 
     def getattr_hook(self, ctx, it, obj, name):
         o = ctx.deref(obj)
+        if isinstance(o, VArrayConst) and name == "shape":
+            return VTuple([VInt(len(o.items))])
         if isinstance(o, VExprNode):
             if name == "name":
                 return VPy(o.name)
@@ -413,6 +421,10 @@ class ExprEmit(FunctionContract):
         return out
 
 
+class VArrayConst(VTuple):
+    """a one-dimensional array constant: iterates over its entries"""
+
+
 class VExprNode(V):
     ty = None
 
@@ -451,12 +463,164 @@ def _list_add(self, it, op_, other, node):
     return None
 
 
+class ConstEmit(FunctionContract):
+    """PythonExpressionMapper.map_constant: the text is repr() of the PYTHON number the constant denotes (a numpy scalar is
+    converted with .item() first: the repr of a numpy scalar, 'np.float64(1.5)', is not a number literal), wrapped as
+    float('...') exactly for non-finite floats (inf and nan are not literals either).  One variant per kind of constant."""
+    prop = "C01"
+    relpath = EXPR_REL
+    qualname = "PythonExpressionMapper.map_constant"
+
+    def __init__(self, numpy_scalar, floating, nonfinite):
+        self.numpy_scalar, self.floating, self.nonfinite = numpy_scalar, floating, nonfinite
+        self.variant_name = "%s,%s,%s" % ("numpy-scalar" if numpy_scalar else "python-number", "float" if floating else "not-a-float",
+                                          "non-finite" if nonfinite else "finite")
+
+    class VConst(V):
+        ty = None
+
+        def __init__(self, tag, numpy_scalar):
+            self.tag, self.numpy_scalar = tag, numpy_scalar
+
+    def params(self, ctx):
+        ctx.env["self"] = VObj(TObj("Mapper", {}), {})
+        ctx.env["expr"] = self.VConst("the constant", self.numpy_scalar)
+        ctx.env["args"] = VTuple([])
+
+    def isinstance_hook(self, ctx, it, obj, names):
+        o = ctx.deref(obj)
+        if not isinstance(o, self.VConst):
+            return None
+        table = {"np.generic": o.numpy_scalar, "numpy.generic": o.numpy_scalar,
+                 "float": self.floating and not o.numpy_scalar, "np.number": o.numpy_scalar, "numpy.number": o.numpy_scalar,
+                 "np.floating": self.floating and o.numpy_scalar}
+        if all(n in table for n in names):
+            return VBool(B(any(table[n] for n in names)))
+        return None
+
+    def getattr_hook(self, ctx, it, obj, name):
+        o = ctx.deref(obj)
+        if isinstance(o, self.VConst) and name == "item":
+            if not o.numpy_scalar:
+                ctx.raise_("AttributeError")
+            return VFunc("item", lambda ctx, it, a, k: self.VConst("its Python value", False))
+        if isinstance(o, VPy) and o.py in ("np", "numpy"):
+            if name in ("isinf", "isnan"):
+                # asked of a number that is not a float (an int, a complex): answered for the real part; not modelled
+                def test(ctx, it, a, k, name=name):
+                    v = ctx.deref(a[0])
+                    if not isinstance(v, self.VConst):
+                        raise Unsupported("np.%s(%r)" % (name, v))
+                    if not self.floating:
+                        raise Unsupported("np.%s of a constant that is not a float" % name)
+                    return VBool(B(self.nonfinite)) if name == "isinf" else VBool(B(False))
+                return VFunc(name, test)
+            return VClass("np." + name)
+        return None
+
+    def m_repr(self, ctx, it, args, kw):
+        v = ctx.deref(args[0])
+        if not isinstance(v, self.VConst):
+            raise Unsupported("repr(%r)" % (v,))
+        return VPy("REPR(%s)" % ("numpy scalar" if v.numpy_scalar else "python number"))
+
+    def binop_hook(self, ctx, it, op_, a, b):
+        if op_ is pyast.Add and isinstance(a, VPy) and isinstance(b, VPy) and isinstance(a.py, str) and isinstance(b.py, str):
+            return VPy(a.py + b.py)
+        return None
+
+    names = property(lambda self: {"repr": VFunc("repr", self.m_repr), "np": VPy("np"), "numpy": VPy("numpy")})
+
+    def ensures(self, st):
+        text = getattr(st._deref(st.result), "py", None)
+        want = "REPR(python number)"
+        if self.floating and self.nonfinite:
+            want = "float('" + want + "')"
+        return [("the-text-is-repr-of-the-Python-number(float('...')-exactly-for-a-non-finite-float)", B(text == want))]
+
+
+class BuiltinPatterns(Unit):
+    """function_registry._make_bfr: the Python text pattern of every built-in.  The generated class embeds the source of
+    dagrt/builtins_python.py itself (every `builtin_x` becomes the static method `_builtin_x`), so a pattern
+    'self._builtin_<name>({args})' calls the interpreter's own implementation by construction.  An inlined pattern
+    ('{numpy}.abs({args})') must parse, with {numpy} -> np and {args} -> the implementation's parameters, to exactly the
+    expression the one-line implementation returns.  Any other pattern cannot be related to the implementation here:
+    undecided."""
+    label = "builtin-patterns:dagrt/function_registry.py:_make_bfr"
+
+    def generate(self):
+        reg, _ = extract.parse_module("dagrt/function_registry.py")
+        imp, _ = extract.parse_module("dagrt/builtins_python.py")
+        impls = {n.name: n for n in imp.body if isinstance(n, pyast.FunctionDef)}
+        classes = {n.name: n for n in reg.body if isinstance(n, pyast.ClassDef)}
+
+        def ident_of(cls):
+            while cls in classes:
+                for st in classes[cls].body:
+                    if isinstance(st, pyast.Assign) and any(isinstance(t, pyast.Name) and t.id == "identifier" for t in st.targets) \
+                            and isinstance(st.value, pyast.Constant):
+                        return st.value.value
+                bases = [b.id for b in classes[cls].bases if isinstance(b, pyast.Name)]
+                cls = bases[0] if bases else None
+            return None
+        fn = [n for n in reg.body if isinstance(n, pyast.FunctionDef) and n.name == "_make_bfr"]
+        if not fn:
+            raise Unsupported("_make_bfr not found")
+        pairs = []
+        for node in pyast.walk(fn[0]):
+            if isinstance(node, pyast.For) and isinstance(node.iter, pyast.List):
+                for el in node.iter.elts:
+                    if isinstance(el, pyast.Tuple) and len(el.elts) == 2 and isinstance(el.elts[0], pyast.Call) \
+                            and isinstance(el.elts[0].func, pyast.Name) and isinstance(el.elts[1], pyast.Constant):
+                        pairs.append((el.elts[0].func.id, el.elts[1].value, el.lineno))
+                    else:
+                        raise Unsupported("_make_bfr: a table entry that is not (Class(), 'pattern')")
+        if len(pairs) < 10:
+            raise Unsupported("_make_bfr: table of (function, pattern) pairs not found")
+        obs = []
+        for cls, pat, line in pairs:
+            ident = ident_of(cls)
+            if not ident or not ident.startswith("<builtin>"):
+                raise Unsupported("identifier of %s" % cls)
+            name = ident[len("<builtin>"):]
+            impl = impls.get("builtin_" + name)
+            if impl is None:
+                raise Unsupported("no implementation builtin_%s in builtins_python.py" % name)
+            if pat == "self._builtin_%s({args})" % name:
+                why = "calls the embedded copy of builtins_python.builtin_%s" % name
+            else:
+                body = [st for st in impl.body if not isinstance(st, (pyast.Import, pyast.ImportFrom))]
+                params = ", ".join(a.arg for a in impl.args.args)
+                try:
+                    got = pyast.dump(pyast.parse(pat.format(numpy="np", args=params), mode="eval").body)
+                except Exception as ex:
+                    raise Unsupported("pattern of %s does not parse: %s" % (ident, ex))
+                if not (len(body) == 1 and isinstance(body[0], pyast.Return) and body[0].value is not None
+                        and pyast.dump(body[0].value) == got):
+                    raise Unsupported("the pattern %r of %s is neither a call of the embedded implementation nor the expression "
+                                      "builtins_python.builtin_%s returns" % (pat, ident, name))
+                why = "is the expression builtins_python.builtin_%s returns" % name
+            ob = Obligation("%s/%s-generated-text-is-the-interpreter's-implementation" % (self.label, name), [], z3.BoolVal(True), line=line)
+            ob.external = {"ok": True, "seconds": 0.0, "backend": "ast comparison", "output": "%r %s" % (pat, why)}
+            obs.append(ob)
+        return [], obs, {"patterns": len(pairs)}
+
+
 def expr_units():
     us = [FunctionUnit(ExprEmit("map_variable", {"name": "y"}, "N_y")),
           FunctionUnit(ExprEmit("map_variable", {"name": "<func>f"}, "F__func_f".replace("F__func_f", "F_FUNC"))),
           FunctionUnit(ExprEmit("map_call", {}, ("delegates", ("expr.function", "expr.parameters", "{}")))),
           FunctionUnit(ExprEmit("map_call_with_kwargs", {}, ("delegates", ("expr.function", "expr.parameters", "expr.kw_parameters")))),
           FunctionUnit(ExprEmit("map_if", {}, "E_expr.then if E_expr.condition else E_expr.else_".replace("expr.", "expr_")))]
+    for npy, fl, nf in ((False, False, False), (False, True, False), (False, True, True), (True, False, False), (True, True, False),
+                        (True, True, True)):
+        us.append(FunctionUnit(ConstEmit(npy, fl, nf)))
+    us.append(BuiltinPatterns())
+    # an array constant is an OBJECT array, as the interpreter's is: entries keep their own types (an int array would truncate a
+    # later store of a fraction)
+    for n in (1, 2, 3):
+        us.append(FunctionUnit(ExprEmit("map_numpy_array", {"elements": n},
+                                        "NUMPY.array([%s], dtype='object')" % ", ".join("E_e%d" % i for i in range(n)))))
     for n, m in itertools.product((0, 1, 2), (0, 1, 2)):
         args = ["E_a%d" % i for i in range(n)] + ["kw%d=E_k%d" % (i, i) for i in range(m)]
         us.append(FunctionUnit(ExprEmit("map_generic_call", {"args": n, "kwargs": m, "registered": False},
